@@ -11,7 +11,7 @@ def J(harness, **kw):
 PROM = dict(overlay="harness/prometheus", pkgdir="ee/plugins/prometheus", pkgname="roprometheus")
 
 RLU = dict(overlay="harness/rlulule", pkgdir="plugins/ratelimit/ulule", pkgname="roratelimit", init="github.com/ulule/limiter/v3")
-RLN = dict(overlay="harness/rlnative", pkgdir="plugins/ratelimit/native", pkgname="roratelimit", native=False)
+RLN = dict(overlay="harness/rlnative", pkgdir="plugins/ratelimit/native", pkgname="roratelimit", timeshim=True)
 
 SORT = dict(overlay="harness/sort", pkgdir="plugins/sort", pkgname="rosort")
 STDIO = dict(overlay="harness/stdio", pkgdir="plugins/stdio", pkgname="rostdio")
@@ -43,7 +43,7 @@ PROPS = {
     "C13": {"quick": [J("^vhC02_core_2x2$|^vhC06_wait_L1$|^vhC08_handoff_n2$|^vhC17_(tochannel|fromchannel)_L2$", preempt=1, races=True, samples=2)],
             "thorough": [J("^vhC02_core_(2x2|3x1)$|^vhC06_wait_L2$|^vhC08_handoff_n3$|^vhC17_(tochannel|fromchannel)_L2$", preempt=2, races=True, samples=2)], "bounds": {}, "assumptions": []},
     "C15": {"quick": [J("^vhC15_.*_A2$", samples=4)], "thorough": [J("^vhC15_.*_A(2|3)$", samples=8)], "bounds": {}, "assumptions": []},
-    "C16": {"quick": [J("^vhC16_.*2$", samples=2, native=False)], "thorough": [J("^vhC16_(delay|interval|timeout|throttle).*3$|^vhC16_sample_n2$", samples=2, native=False)], "bounds": {}, "assumptions": []},
+    "C16": {"quick": [J("^vhC16_.*2$", samples=2, timeshim=True)], "thorough": [J("^vhC16_(delay|interval|timeout|throttle).*3$|^vhC16_sample_n2$", samples=2, timeshim=True)], "bounds": {}, "assumptions": []},
     "C10": {"quick": [J("^vhC10_seq_.*_K4$", samples=3), J("^vhC10_conc_", preempt=0, samples=1), J("^vhC10_conc_(behavior|unicast|async)", preempt=1, samples=1)], "thorough": [J("^vhC10_seq_.*_K5$", samples=6), J("^vhC10_conc_", preempt=0, samples=1), J("^vhC10_conc_", preempt=2, samples=1, maxpaths=3000000)],
             "bounds": {"ops_quick": 4, "ops_thorough": 5, "subscribers": 3}, "assumptions": []},
     "C04": {"quick": [J("^vhC04_(ref_L3|variants_L2|blocking_L2)$", samples=8)], "thorough": [J("^vhC04_(ref_L4|variants_L3|blocking_L3)$", samples=16)],
